@@ -21,7 +21,7 @@ run_demos() {
   rc=0
   for d in $DEMOS; do
     if [ -f "$WT/tests/$d.rs" ]; then
-      (cd "$WT" && timeout 600 cargo test --offline --test "$d" > "$WT/demo_$d.log" 2>&1 < /dev/null); r=$?
+      (cd "$WT" && timeout 600 cargo test --offline --test "$d" -- --test-threads=1 > "$WT/demo_$d.log" 2>&1 < /dev/null); r=$?
     else
       (cd "$WT" && timeout 600 cargo run --offline --example "$d" > "$WT/demo_$d.log" 2>&1 < /dev/null); r=$?
     fi
